@@ -343,6 +343,23 @@ func init() {
 			}
 			return cs
 		})
+		if !c.Quick() && c.Shard == 0 {
+			inputs, _ := nativeFuzz(c, "FuzzEscape", 60)
+			for _, in := range inputs {
+				for _, esc := range escapers {
+					one.Check(c, &c13Case{Esc: esc, S: sb.BS(in)})
+				}
+			}
+		}
 	}
 	Register(p)
+}
+
+// C13Judge exposes the escaper oracle to the native fuzz target: it returns the
+// failure signature and description, or two empty strings.
+func C13Judge(esc, in, out string) (string, string) {
+	if f := c13Judge(esc, in, out); f != nil {
+		return f.Sig, f.Expected + " / " + f.Observed
+	}
+	return "", ""
 }
